@@ -1,6 +1,7 @@
 """C18 -- printing terminates and leaves the stream and the printer as it found them."""
 from facts import AnalysisBroken, walk, strip_casts
 from symex import Sym, State, Unsupported
+import json
 import contracts
 import ppgraph
 
@@ -313,12 +314,34 @@ def run(ck, F):
             return max(a, b) if a is not None and b is not None else None
         return None
 
-    def whole_view(buf, n):
-        b, m = strip_all(buf), strip_all(n)
+    def whole_view(buf, n, fn=None):
+        from facts import local_init as _li
+
+        def through(e):
+            # every cast is transparent for this question (a char8_t* read as char* designates the same bytes), and a local that is
+            # never reassigned stands for its initialiser
+            for _ in range(6):
+                while isinstance(e, dict) and e.get('k') in ('cast', 'paren') and 'e' in e:
+                    e = e['e']
+                if isinstance(e, dict) and e.get('k') == 'ref' and e.get('kind') == 'local' and fn is not None:
+                    i = _li(fn, e)
+                    if i is None:
+                        break
+                    e = i
+                else:
+                    break
+            return e or {}
+
+        def key(e):
+            e = through(e)
+            if e.get('k') == 'ref':
+                return ('ref', e.get('kind'), e.get('id', e.get('idx')), e.get('name'))
+            return json.dumps(e, sort_keys=True, default=str) if e else None
+        b, m = through(buf), through(n)
         if b.get('k') == 'call' and m.get('k') == 'call' and (b.get('callee') or {}).get('name') in ('data', 'begin', 'c_str') \
                 and (m.get('callee') or {}).get('name') in ('size', 'length'):
-            rb, rm = b.get('recv') or b.get('this'), m.get('recv') or m.get('this')
-            return rb is not None and strip_all(rb) == strip_all(rm)
+            rb, rm = b.get('obj'), m.get('obj')
+            return rb is not None and rm is not None and key(rb) == key(rm)
         return False
     _dom5 = {}
     for f in sorted(pf, key=lambda f: f['id']):
@@ -340,7 +363,7 @@ def run(ck, F):
                 continue
             if len(a) != 2:
                 raise AnalysisBroken(f'{f["id"]}: {c["name"]} with {len(a)} arguments')
-            if whole_view(a[0], a[1]):
+            if whole_view(a[0], a[1], f):
                 continue
             cb = const_bytes(a[0])
             ub = upper(a[1])
